@@ -1,7 +1,7 @@
 """C08 Authentication tag is RFC 2104 HMAC over IVs+ciphertext, stored at offset 10."""
 from .common import combined
 LEVEL = 'other'
-RULES = ('R08.a', 'R08.b', 'R06.a', 'S-CMP', 'R05.e', 'R02.b', 'R05.d', 'R13.d', 'R07.e', 'R07.d', 'R07.g', 'R07.t', 'R06.c')
+RULES = ('R08.a', 'R08.b', 'R06.a', 'S-CMP', 'R05.e', 'R02.b', 'R05.d', 'R13.d', 'R07.e', 'R07.d', 'R07.g', 'R07.t', 'R06.c', 'R08.r')
 
 
 def run(prog, rec, tier):
